@@ -31,6 +31,8 @@ bool g_sg;
 	X(op == TSUB) \
 	X(l->type != 0 && expr->type == l->type) \
 	X(T_VALID(l->type) && (l->type->prop & PROPARITH)) \
+	/* 6.5.3.3p3: the integer promotions were performed on the operand (expr.c:1054): never _Bool, rank >= int */ \
+	X(IMP(T_ISINT(l->type), (!T_ISBOOL(l->type) && l->type->size >= 4))) \
 	X(l->kind == EXPRCONST) \
 	X(g_l == l->u.constant.u && g_sz == l->type->size) \
 	X(IMP(T_ISINT(l->type), (g_sg == l->type->u.basic.issigned && spec_canon(g_l, g_sz, g_sg))))
